@@ -133,6 +133,7 @@ func checkC09(c *Ctx) {
 	c.Analysed("enum emissions (out of the property's scope)", outOfScope)
 
 	checkSanitisers(c, gen)
+	checkPostRender(c, gen)
 	checkPrintTags(c, gen)
 }
 
@@ -552,4 +553,112 @@ func ownerName(sel *types.Selection) string {
 		}
 	}
 	return goan.NamedName(t)
+}
+
+// checkPostRender: what the sanitisers made safe is what gets written — render returns the
+// bytes the template execution produced, untransformed (a later rewrite can re-create the
+// sequences the sanitisers broke up), and every Go-producing default template goes through
+// the source formatter, the only syntax check generated files get ("compilable or an error").
+func checkPostRender(c *Ctx, gen *packages.Package) {
+	rule := "C09.R3.post-render"
+	c.Rule(rule, "the rendered bytes are written as executed (only the language formatter touches them) and no Go-producing default template skips formatting", 3)
+	info := gen.TypesInfo
+	fd := load.FuncDecl(gen, "GenOpts.render")
+	if fd == nil {
+		c.Anchor(rule, "generator.GenOpts.render", "not found")
+	} else {
+		var buf types.Object
+		ast.Inspect(fd.Body, func(n ast.Node) bool {
+			call, ok := n.(*ast.CallExpr)
+			if ok && goan.LastSel(call.Fun) == "Execute" && len(call.Args) == 2 {
+				if un, ok := ast.Unparen(call.Args[0]).(*ast.UnaryExpr); ok {
+					if id, ok := un.X.(*ast.Ident); ok {
+						buf = info.Uses[id]
+					}
+				}
+			}
+			return true
+		})
+		okRet, n := buf != nil, 0
+		ast.Inspect(fd.Body, func(nd ast.Node) bool {
+			if _, isLit := nd.(*ast.FuncLit); isLit {
+				return false
+			}
+			rs, ok := nd.(*ast.ReturnStmt)
+			if !ok || len(rs.Results) != 2 || !goan.IsIdent(rs.Results[1], "nil") {
+				return true
+			}
+			n++
+			call, ok := ast.Unparen(goan.ResolveLocal(info, fd.Body, rs.Results[0])).(*ast.CallExpr)
+			if !ok || goan.LastSel(call.Fun) != "Bytes" || len(call.Args) != 0 {
+				okRet = false
+				return true
+			}
+			se, _ := call.Fun.(*ast.SelectorExpr)
+			if se == nil || !identIs(info, se.X, buf) {
+				okRet = false
+			}
+			return true
+		})
+		c.Check(okRet && n >= 1, rule, "generator.GenOpts.render › returns the executed buffer unchanged", c.posOf(gen, fd.Pos()), "return <buffer given to Execute>.Bytes(), nil",
+			"render() post-processes the output of the template (replace / trim / re-encode): byte sequences that the comment and string sanitisers had broken up can be re-created after they ran")
+	}
+	// write: content flows render → FormatContent → WriteFile
+	if wd := load.FuncDecl(gen, "GenOpts.write"); wd == nil {
+		c.Anchor(rule, "generator.GenOpts.write", "not found")
+	} else {
+		var calls []string
+		ast.Inspect(wd.Body, func(n ast.Node) bool {
+			call, ok := n.(*ast.CallExpr)
+			if !ok {
+				return true
+			}
+			for _, a := range call.Args {
+				if id, ok := ast.Unparen(a).(*ast.Ident); ok && (id.Name == "content" || id.Name == "formatted") {
+					name := goan.LastSel(call.Fun)
+					if id2, ok := call.Fun.(*ast.Ident); ok {
+						name = id2.Name
+					}
+					calls = append(calls, name)
+				}
+			}
+			return true
+		})
+		bad := ""
+		for _, cn := range calls {
+			switch cn {
+			case "FormatContent", "WriteFile", "len", "checkTargetCollision":
+			default:
+				bad = cn
+			}
+		}
+		c.Check(bad == "" && len(calls) >= 3, rule, "generator.GenOpts.write › rendered content only goes to the formatter and the file", c.posOf(gen, wd.Pos()), fmt.Sprintf("%v", calls),
+			"the rendered content is handed to "+bad+" before it is written: a transformation after sanitisation")
+	}
+	// no Go-producing default template skips the formatter
+	ds := load.FuncDecl(gen, "DefaultSectionOpts")
+	if ds == nil {
+		c.Anchor(rule, "generator.DefaultSectionOpts", "not found")
+		return
+	}
+	nGo := 0
+	ast.Inspect(ds.Body, func(n ast.Node) bool {
+		cl, ok := n.(*ast.CompositeLit)
+		if !ok || goan.NamedName(info.TypeOf(cl)) != "TemplateOpts" {
+			return true
+		}
+		fn, _ := goan.StringVal(info, goan.Field(cl, "FileName"))
+		if !strings.HasSuffix(fn, ".go") {
+			return true
+		}
+		nGo++
+		sf := goan.Field(cl, "SkipFormat")
+		src, _ := goan.StringVal(info, goan.Field(cl, "Source"))
+		c.Check(sf == nil || goan.IsIdent(sf, "false"), rule, "generator.DefaultSectionOpts › "+src+" is formatted", c.posOf(gen, cl.Pos()), "SkipFormat unset",
+			"the Go file produced from "+src+" skips the source formatter, the only syntax check of generated files: text that is not valid Go (a NUL, an unterminated comment) is written out and generation still exits 0")
+		return true
+	})
+	if nGo < 15 {
+		c.Unk(rule, "generator.DefaultSectionOpts › Go-producing templates", c.posOf(gen, ds.Pos()), fmt.Sprintf("%d found, expected at least 15", nGo))
+	}
 }
